@@ -13,14 +13,14 @@ HANG_CLAUSE = 'terminates'   # check.py: a case that does not return is a failin
 CASE_TIMEOUT = 60             # wall seconds per case (check.py, SIGALRM); the module's own watchdog counts CPU time (SIGPROF)
 LEAN_MODULES = ['PybtexModel.Props.C14']
 THEOREMS = {
-    'C14_own_field_wins': 'a field the entry defines itself always wins',
+    'C14_own_field_wins': "[model wiring] one unfolding of the model lookup (its first test is the entry's own field table): an own field is returned whatever the database and the visited set; the independent own-first claim is C14_inherits_nearest (the reference asks field, then role, of the entry before any parent)",
     'C14_inherits_nearest': 'a field the entry lacks is seen with the value of the first entry along the cross-reference chain that defines the field or role (model = reference lookup)',
-    'C14_person_roles_joined': "person roles are visible as ' and '-joined fields",
+    'C14_person_roles_joined': "[model wiring] one unfolding of the model lookup: when no FIELD of that name hides it, a role the entry has itself is returned as its ' and '-joined persons; the independent claim (own and inherited roles, against the reference lookup) is C14_inherits_nearest",
     'C14_missing_iff': 'a field counts as missing iff no entry along the whole chain defines it',
-    'C14_terminates': 'lookup terminates for every cross-reference graph incl. self and mutual references; a cycle without the field gives missing; walking further never changes the answer; the lookup follows at most as many cross-references as the database has entries',
+    'C14_terminates': 'for the model of the REPAIRED code (visited guard, proposed_fixes/C14-1; termination itself is Lean totality of that model, the code is tied to it by the correspondence check on cycles and long chains), every well-formed database and entry: the answer equals a reference walk of ANY length >= |db|+1, a chain/cycle without the field gives missing, at most |db| cross-references are followed',
     'C14_dangling': 'lookup through a dangling reference gives missing, and resolution reports a bad cross-reference for every entry that goes into the bibliography (cited or appended)',
-    'C14_engines_agree': 'the BST field variables (Field.value, missing$) and the template field node of the Python engine return the same lookup',
-    'C14_python_names_partial': 'the names node of the Python engine shows a role the entry has itself: the persons whose joined names are the reference lookup and the BST value',
+    'C14_engines_agree': '[model wiring] both model paths (Field.value / missing$ and the template field node) are the ONE model lookup in two wrappers: they agree by definition; proved content = that lookup is the reference lookup (C14_inherits_nearest); that both REAL engines go through Entry._find_field with the database is carried by the correspondence check (clause engines_agree)',
+    'C14_python_names_partial': 'for a role the entry has ITSELF and no field of that name hides: the model names node returns its persons (conjunct 1: [model wiring], one unfolding of templateNames), and their joined names are the reference lookup and the BST value (via C14_inherits_nearest)',
     'C14_python_names_neg': 'witness: a role (and the year the labels and sort keys read) inherited from the cross-referenced parent is seen by the BibTeX engine and not by the names node / label / sorting styles of the Python engine (finding C14-python-engine-reads-own-persons)',
 }
 NAMES = ['note', 'howpublished', 'author', 'zz']
@@ -1079,4 +1079,12 @@ LEVEL_NOTE = ('Trusted: Lean kernel; axioms propext/Classical.choice/Quot.sound 
               'as far as the differential check explores; persons are modelled as already formatted strings (str(Person) is C04/C02); '
               'Text.from_latex and the templates are exercised, not modelled (values are plain tokens).  The Python engine shows person '
               'roles through the names node and computes labels and sort keys from the entry itself: an INHERITED role / year / title is '
-              'not seen there (C14_python_names_partial + C14_python_names_neg; finding C14-python-engine-reads-own-persons).')
+              'not seen there (C14_python_names_partial + C14_python_names_neg; finding C14-python-engine-reads-own-persons).  '
+              'DEFINITIONAL THEOREMS: in the model the BST field variable and the template field node are the same call of the one '
+              'lookup function in two wrappers, so C14_engines_agree only records that wiring plus "= reference lookup"; that the two '
+              'REAL engines agree (Field.value and the template field node both call Entry._find_field, and the formatting context '
+              'carries bib_data) is a modelling decision carried ONLY by the correspondence check (oracle clause engines_agree: entry '
+              'API, generated .bst and the unsrt style on the same databases).  C14_own_field_wins, C14_person_roles_joined and '
+              'conjunct 1 of C14_python_names_partial are one-step unfoldings of the model; their independent content is '
+              'C14_inherits_nearest against Spec.lookup.  Termination is Lean totality of a model of the repaired code (visited guard); '
+              'C14_terminates proves walk-length independence, missing on field-free cycles and the hop bound.')
